@@ -548,6 +548,12 @@ def pairAgrees (o : PairObs) : List String :=
   (if o.dupRejected != o.eq then ["map-literal"] else []) ++
   (if o.index != (if o.eq then some 0 else none) then ["index"] else [])
 
+/-- P̂ for one map operation, on the key sequences (any injective rendering of the keys) observed
+    before and after it: a removal leaves a subsequence, `map-merge`/`map.set` leave the old keys
+    as a prefix — "merging or removing never disturbs the order of the remaining keys". -/
+def orderKept (removal : Bool) (before after : List String) : Bool :=
+  if removal then after.isSublist before else before.isPrefixOf after
+
 /-! ### driver: value encoding
 
   prefix tokens:  `N` | `T` | `F` | `n <rat> <unit>` | `s <0|1> <hex>` | `c <rat> <rat> <rat> <rat>`
@@ -826,6 +832,12 @@ def handle : List String → String
         if bad.isEmpty then "ok holds" else "ok fails " ++ ",".intercalate bad
       | none => "bad-op"
     | _, _, _, _, _, _, _ => "bad-op"
+  -- orderlaw <remove|grow> <before: k1,k2,… | -> <after: …>  (keys hex-encoded): P̂ `orderKept` on an implementation's answers
+  | ["orderlaw", kind, before, after] =>
+    let ks (t : String) : List String := if t == "-" then [] else t.splitOn ","
+    if kind == "remove" then (if orderKept true (ks before) (ks after) then "ok holds" else "ok fails")
+    else if kind == "grow" then (if orderKept false (ks before) (ks after) then "ok holds" else "ok fails")
+    else "bad-op"
   -- first <bits> → ok <position of the first 1 | none>   (P̂ of `index`/`map-get` against a row of `==` answers)
   | ["first", bits] => "ok " ++ optNatStr (firstTrue (parseBits bits))
   | _ => "bad-op"
